@@ -45,6 +45,7 @@ func C12(ctx *core.Ctx, r *core.Report) {
 	errorTestedBeforeNextCall(ctx, r)
 	postConstraintsAlwaysRun(ctx, r)
 	c12ClearStopsAtFirstFailure(ctx, r)
+	c15DeferredErrorIsTheResult(ctx, r)
 }
 
 // c12Pairing: end follows begin on all exits.
